@@ -9,6 +9,7 @@ lock (the linearisation `C03.serializable` promises), replayed ATOMICALLY on the
   p:k    c.pop(k)    P:k:d c.pop(k,d)   D:k:v  c.setdefault   u:pairs  c.update(pairs)
   I      c.popitem() c    c.clear()     C      c.copy()       e:pairs  c == {pairs}
   n:pairs c != {pairs}                  i:pairs c |= {pairs}
+  U:pairs:kw  c.update(pairs, **kw)  (keyword form; `-` = no positional argument / no keywords)
   K      c.copy() observed through its items (dict order), class, max_size and eviction-order probe
 on_miss is k ↦ 10k+7.  Output:  <result>,<result>,…|<final items sorted>|<eviction order probe>
 -/
@@ -49,6 +50,7 @@ def parseOp? (tok : String) : Option (Op Nat Nat) :=
   | ["P", k, d] => do some (.pop (← k.toNat?) (some (← d.toNat?)))
   | ["D", k, v] => do some (.setdefault (← k.toNat?) (← v.toNat?))
   | ["u", ps] => do some (.update (.pairs (← parsePairs? ps)) [])
+  | ["U", ps, kw] => do some (.update (.pairs (← parsePairs? ps)) (← parsePairs? kw))
   | ["I"] => some .popitem
   | ["c"] => some .clear
   | ["C"] => some .copy
